@@ -218,7 +218,7 @@ theorem read_written (cfg : Cfg) (sem : Sem) (env : Env) :
             refine ⟨v' :: vs'', ?_, ?_⟩
             · simp only [readFields, hs, ho]
               have hk : f.key.getD "" = keyOf f := rfl
-              simp only [hk, hent, readField, hdef, readPlain]
+              simp only [hk, hent, readField, hdef, readPlain, readAbsent]
               simp at hr
               simp [hr, derase_fresh hent, hrd, ho]
             · simp [EmitsEq, hso, hem', hem, heq]
